@@ -29,7 +29,7 @@ Dictionary::Ptr ServiceNameComposer::ParseName(const String& name) const
 {
 	std::vector<String> tokens = name.Split("!");
 
-	if (tokens.size() < 2)
+	if (tokens.size() != 2)
 		BOOST_THROW_EXCEPTION(std::invalid_argument("Invalid Service name."));
 
 	return new Dictionary({
